@@ -260,25 +260,51 @@ def run(ctx):  # noqa: C901, PLR0912, PLR0915
     g = cfg_of(scx)
     # the counting: <dict>[<x>.DescriptorHandle].append(..) under the fact "<x>.ContextAssociation == ...ASSOCIATED"
     counted = []
-    for n, c in g.nodes_calling('append'):
-        tgt = c.func.value
-        if isinstance(tgt, ast.Subscript) and isinstance(tgt.slice, ast.Attribute) and tgt.slice.attr == 'DescriptorHandle' \
-                and isinstance(tgt.slice.value, ast.Name) and isinstance(tgt.value, ast.Name):
-            x = tgt.slice.value.id
-            assoc = any(pol is True and '==' in txt and f'{x}.ContextAssociation' in txt and
-                        'ContextAssociation.ASSOCIATED' in txt for txt, pol in g.facts_at(n))
-            counted.append((tgt.value.id, assoc))
-    dicts = {d for d, a in counted if a}
-    raises = [n for n in g.nodes if n.kind == 'raisestmt' and any(re.fullmatch(r'len\(\w+\) > 1', txt) and pol
-                                                                  for txt, pol in g.facts_at(n))]
+
+    def _assoc_fact(node, x):
+        return any(pol is True and '==' in txt and f'{x}.ContextAssociation' in txt and
+                   'ContextAssociation.ASSOCIATED' in txt for txt, pol in g.facts_at(node))
+    for n in g.real_nodes():
+        tgts = []
+        for c in n.calls():
+            if call_name(c) in ('append', 'add') and isinstance(c.func, ast.Attribute):
+                tgts.append(c.func.value)
+        if n.kind == 'stmt' and isinstance(n.stmt, (ast.Assign, ast.AugAssign)):
+            tgts += n.stmt.targets if isinstance(n.stmt, ast.Assign) else [n.stmt.target]
+        for tgt in tgts:
+            if isinstance(tgt, ast.Subscript) and isinstance(tgt.slice, ast.Attribute) and tgt.slice.attr == 'DescriptorHandle' \
+                    and isinstance(tgt.slice.value, ast.Name) and isinstance(tgt.value, ast.Name):
+                counted.append((tgt.value.id, _assoc_fact(n, tgt.slice.value.id), n))
+    dicts = {d for d, a, _n in counted if a}
+    from engine.deps import Deps
+    dp = Deps(scx.node)
     withs = [n for n in g.nodes if n.kind == 'with' and 'context_state_transaction' in n.text()]
     if not withs:
         raise AnalysisError('C10.R4: transaction with-statement not found in _set_context_state')
-    ok = bool(raises) and all(not r.withs for r in raises)
-    # the with statement is reachable only after the check loop finished
-    loops = [n for n in g.nodes if n.kind == 'for' and any(n.text().endswith(f' in {d}.items()') for d in dicts)]
-    ok = ok and bool(loops) and all(g.dominates(loops[0], w) for w in withs) and \
-        all(any(lp.stmt in r.loops for lp in loops) for r in raises)
+    # the rejecting raise: outside the transaction, controlled by a test that is computed from the per-descriptor record with
+    # a "more than one" comparison (len(list) > 1, count > 1, next(h for h, c in d.items() if c > 1) ...)
+    raises = []
+    for r in g.nodes:
+        if r.kind != 'raisestmt' or r.withs:
+            continue
+        for b in g.nodes:
+            if b.kind == 'branch' and b.label in (True, False) and g.dominates(b, r):
+                src_ = dp.sources(b.test)
+                more_than_one = any(
+                    isinstance(c, ast.Compare) and len(c.ops) == 1 and (
+                        (isinstance(c.ops[0], ast.Gt) and isinstance(c.comparators[0], ast.Constant) and c.comparators[0].value == 1)
+                        or (isinstance(c.ops[0], ast.GtE) and isinstance(c.comparators[0], ast.Constant) and c.comparators[0].value == 2)
+                        or (isinstance(c.ops[0], ast.Lt) and isinstance(c.left, ast.Constant) and c.left.value == 1)
+                        or (isinstance(c.ops[0], ast.LtE) and isinstance(c.left, ast.Constant) and c.left.value == 2))
+                    for e in dp.reach(b.test) for c in ast.walk(e))
+                if 'attr:DescriptorHandle' in src_ and more_than_one:
+                    raises.append(r)
+                    break
+    fill = [n for _d, a, n in counted if a]
+    ok = bool(raises) and bool(fill) and all(not n.withs for n in fill)
+    # the transaction is opened only after the counting loop finished
+    loops = [h for h in g.nodes if h.kind == 'for' and any(h.stmt in n.loops for n in fill)]
+    ok = ok and bool(loops) and all(g.dominates(loops[0], w) for w in withs)
     ctx.ob('C10.R4', 'double association rejected first', ok,
            'the check for more than one associated state per descriptor raises before the transaction is opened',
            fi=sc, witness=[r.lineno for r in raises])
@@ -291,8 +317,10 @@ def run(ctx):  # noqa: C901, PLR0912, PLR0915
     g = cfg_of(mkc)
     src = xsrc(mkc)
     look = [n for n, c in g.nodes_calling('get_one') if 'context_states.handle' in unparse(c.func)]
-    rz = [n for n in g.nodes if n.kind == 'raisestmt' and any(txt == 'old_state_container is None' and pol is False
-                                                              for txt, pol in g.facts_at(n))]
+    # a raise on the edge "the context-state lookup found something" - the lookup may sit in a local or in the test itself
+    rz = [n for n in g.nodes if n.kind == 'raisestmt' and any(
+        pol is False and 'context_states.handle.get_one(' in txt and txt.endswith(' is None')
+        for txt, pol in g.facts_symbolic(n))]
     ok = bool(look) and bool(rz) and 'context_state_handle in self._state_updates' in src
     ctx.ob('C10.R5', 'mk_context_state checks the state handle index', ok,
            'mk_context_state rejects an explicit handle that exists as context state or in the transaction', fi=mkc)
